@@ -130,9 +130,9 @@ PROPS = {
         "rule": "each run = 1..5 unsharded nodes, 1..5 paged queries (query_iter unprepared / execute_iter prepared, idempotent, Default retry policy 3/4 or Fallthrough) over result sets of 0..200 uniquely numbered rows which the mock splits by a seeded page-size sequence (empty pages anywhere, whole-rest pages, trailing empty pages, <= 40 pages) with random paging-state byte strings; per page request the tape may inject a retryable error (Overloaded/IsBootstrapping/ServerError), a non-retryable error (Invalid/Syntax), a connection reset instead of the answer, an UNPREPARED answer (statement evicted between two pages; the repeated request must carry the same paging state), or a delay of seconds; request timeout none / 2 s / 5 s / 30 s per page request; consumers: eager, slow (sleeps between rows), stalled for 1..4 s at a chosen row (longer than the request timeout while the worker is blocked handing over a page), early drop after k rows; system tables are served to the control-connection pager in pages of 1..3 rows. Non-trivial = at least one query needed more than one page request. Distinct = distinct (poll-sequence hash, event-log hash).",
         "assumptions": COMMON_ASSUMPTIONS + [
             "oracles: (a) rows seen are always a prefix of the server's rows in order; on normal end they are all rows and the last page was delivered; (b) from the server's history: first request carries no paging state, each further one asks for the same page only after a failed attempt at it, or for the next page only after the current one was delivered; a state the server never issued or a request beyond the last page is a violation; (c) when the stream fails, exactly the rows of the pages before the failed page were seen; (d) after an early drop at most 2 further distinct pages are requested; control-connection pager: published topology has every node once",
-            "no speculative execution in these runs",
+            "1 in 4 runs add speculative execution (max 1..2 copies, interval 20/50/200 ms) to the idempotent page requests; there the page-request chain is judged by time, because copies travel to different nodes and arrival order is not sending order: a request for page p is legal until 20 virtual ms (a round trip) after the first successful answer for p, with at most 1 + max copies outstanding, and only after page p-1 was answered successfully; the row oracles (a), (c) are unchanged",
         ],
-        "expected_probes": ["page_requests", "page_faults", "Rst"],
+        "expected_probes": ["page_requests", "page_faults", "Rst", "speculative_runs"],
     },
     "C14": {
         "engine": "dsim",
